@@ -81,7 +81,7 @@ def check(ctx):
                 ctx.ob("S-ID", "%s.%s: identifier and topics untouched after encode()" % (cq, op), not late, where=where(late[0]) if late else w,
                        function=fn, construct="%s.%s/late-assign" % (cls.qual, op), nontrivial=False,
                        msg="%s assigned after the packet was encoded" % (late[0].a["field"] if late else ""))
-                arm_ok = len(arms) == 1 and req in arms[0].a["args"] and isinstance(arms[0].a["target"], tuple) and arms[0].a["target"][0] == "bm"
+                arm_ok = len(arms) == 1 and req in arms[0].a["args"] and isinstance(arms[0].a["target"], tuple) and arms[0].a["target"][0] in ("bm", "closure")
                 ctx.ob("S-FLOW", "%s.%s arms exactly one retry timer for the request" % (cq, op), arm_ok, where=where(arms[0]) if arms else w,
                        function=fn, construct="%s.%s/arm" % (cls.qual, op), msg="%d timers armed" % len(arms))
                 wr_ok = len(writes) == 1 and written_object(writes[0].a["data"])[1] == req
